@@ -232,6 +232,51 @@ theorem right_border_solid :
     rightSolid Clikit.Gen.C14.borderless = false ∧ rightSolid Clikit.Gen.C14.compact = false := by
   decide
 
+/-! ### the hypotheses are decided on the real style, table and width
+
+`feasible`, `styleOk`, `given.length ≤ t.n`, `rightSolid` are facts about the real `TableStyle`
+(borders, formats, alignments), the real table and the terminal width.  `Model/Table.lean` has the
+executable deciders; the driver answers them for every generated case (`c14.render`, field `wf`)
+and the correspondence compares them with what the real objects say. -/
+
+theorem styleOkB_eq (st : TableStyle) (h : Bool) : styleOkB st h = styleOk st h := rfl
+
+theorem rightSolidB_eq (st : TableStyle) : rightSolidB st = rightSolid st := rfl
+
+/-- `wfB` decides the hypotheses of the rendering theorems -/
+theorem wf_decides (st : TableStyle) (given : List Nat) (t : Table) (width indent : Nat) :
+    wfB st given t width indent = true ↔
+      (feasible st t width indent ∧ given.length ≤ t.n ∧ styleOk st t.header.isSome = true ∧ 1 ≤ t.n) := by
+  simp only [wfB, feasibleB, feasible, styleOkB_eq, Bool.and_eq_true, decide_eq_true_eq, and_assoc]
+
+/-- `render_ok`, `within_terminal`, `rect_equal` with every hypothesis decided: for a case the
+decider accepts, for every rounding function, rendering succeeds, no line is wider than the
+terminal, and when the right border is not blank all lines are exactly as wide as the table. -/
+theorem render_decided (share : Nat → Nat → Nat → Nat) (st : TableStyle) (given : List Nat) (t : Table)
+    (width indent : Nat) (h : wfB st given t width indent = true) :
+    ∃ lines, render share st given t width indent = .ok lines ∧
+      (∀ l ∈ lines, l.length ≤ width) ∧
+      (rightSolidB st = true →
+        ∃ outs, layout share st t width indent = .ok outs ∧ tableWidth st indent outs ≤ width ∧
+          ∀ l ∈ lines, l.length = tableWidth st indent outs) := by
+  obtain ⟨hf, hal, hst, hn⟩ := (wf_decides st given t width indent).1 h
+  obtain ⟨lines, hr⟩ := render_ok share st given t width indent hf hal
+  refine ⟨lines, hr, within_terminal share st given t width indent hf hst lines hr, ?_⟩
+  intro hs
+  exact rect_equal share st given t width indent hf hst (by rw [← rightSolidB_eq]; exact hs) hn lines hr
+
+/-- `cell_text_preserved` with feasibility decided and the layout obtained from `render_ok`'s
+argument: the fitted columns exist and give back every cell -/
+theorem cell_text_decided (share : Nat → Nat → Nat → Nat) (st : TableStyle) (given : List Nat) (t : Table)
+    (width indent : Nat) (h : wfB st given t width indent = true) :
+    ∃ outs, layout share st t width indent = .ok outs ∧ outs.length = t.n ∧
+      ∀ i j, j < t.n →
+        nonblank (splitLines (((outs.getD j ⟨none, 0, []⟩).cells.getD i ⟨[], 0⟩).text)).flatten
+          = nonblank ((t.allRows.getD i []).getD j []) := by
+  obtain ⟨hf, _, _, _⟩ := (wf_decides st given t width indent).1 h
+  obtain ⟨outs, h1, h2, _⟩ := layout_spec share st t width indent hf
+  exact ⟨outs, h1, h2, fun i j hj => cell_text_preserved share st t width indent hf outs h1 i j hj⟩
+
 /-! ### non-vacuity -/
 
 /-- the D15 witness: one row of `[200, 200, 6]`-character cells, 10 characters available.
@@ -268,5 +313,36 @@ example :
       [" +---------+---+".toList, " | H       | I |".toList, " +---------+---+".toList,
        " | aaa bbb | x |".toList, " | ccc     |   |".toList, " +---------+---+".toList] = true := by
   decide +kernel
+
+/-! every hypothesis of the theorems above is satisfiable (instances through the theorems) -/
+
+private def exTable : Table :=
+  { header := some ["H".toList, "I".toList], rows := [["aaa bbb ccc".toList, "x".toList]], n := 2 }
+
+/-- the decider accepts the rendered example: feasible at width 16, two alignments for two
+columns, the ascii style is fine ... -/
+example : wfB Clikit.Gen.C14.ascii [0, 1] exTable 16 1 = true := by decide
+
+/-- ... rejects a terminal that is too narrow and an alignment list that is too long ... -/
+example : wfB Clikit.Gen.C14.ascii [0, 1] exTable 9 1 = false ∧
+    wfB Clikit.Gen.C14.ascii [0, 1, 2] exTable 16 1 = false := by decide
+
+/-- ... so `render_ok`, `within_terminal`, `rect`, `rect_equal` apply to it (for every `share`) -/
+example (share : Nat → Nat → Nat → Nat) :
+    ∃ lines, render share Clikit.Gen.C14.ascii [0, 1] exTable 16 1 = .ok lines ∧ ∀ l ∈ lines, l.length ≤ 16 := by
+  obtain ⟨lines, h1, h2, _⟩ := render_decided share Clikit.Gen.C14.ascii [0, 1] exTable 16 1 (by decide)
+  exact ⟨lines, h1, h2⟩
+
+/-- `fit_ok`, `fit_sum`, `fit_pos`, `short_cols_keep`: three columns, ten characters -/
+example (share : Nat → Nat → Nat → Nat) :
+    ∃ outs, fit share 10 [[⟨List.replicate 200 'a', 200⟩], [⟨List.replicate 200 'a', 200⟩], [⟨['a'], 1⟩]] = .ok outs ∧
+      (outs.map (·.width)).sum ≤ 10 := by
+  obtain ⟨outs, h, _⟩ := fit_ok share 10 [[⟨List.replicate 200 'a', 200⟩], [⟨List.replicate 200 'a', 200⟩], [⟨['a'], 1⟩]] (by decide)
+  exact ⟨outs, h, fit_sum share 10 _ (by decide) outs h⟩
+
+/-- `wrap_content`: a positive width -/
+example : nonblank (wrap 5 "  ab cdefghij  k".toList).flatten = "abcdefghijk".toList := by
+  rw [wrap_content 5 (by decide)]
+  decide
 
 end Clikit.Props.C14
